@@ -188,13 +188,16 @@ Proof.
     + destruct oi as [i|]; [phi_leaf | apply IH; assumption].
 Qed.
 
-Lemma gphi_print_dirs l : forallb (deep g) l = true -> Phi (print_dirs cf w l).
+Lemma gphi_print_dirs l : forallb (deep g) l = true -> forall v, Phi (print_dirs cf w l v).
 Proof.
-  induction l as [|d r IH]; cbn [print_dirs]; intros H; [phi_leaf|]. dsplit H.
+  induction l as [|d r IH]; cbn [print_dirs]; intros H v; [phi_leaf|]. dsplit H.
   destruct d; try phi_leaf. dsplit H0.
   destruct (lookup_directive name) as [[arglens ?]|]; [|phi_leaf].
   destruct (negb _); [phi_leaf|].
-  phi_bind; [apply gphi_eval_list; assumption|]. phi_bind; [apply IH; assumption|]. phi_leaf.
+  phi_bind; [apply gphi_eval_list; assumption|].
+  phi_bind; [apply (wg_lift L); apply (ps_string _ PS)|].
+  phi_bind; [apply (wg_lift L); apply (ps_print _ PS)|].
+  phi_bind; [apply IH; assumption|]. phi_leaf.
 Qed.
 
 Lemma gphi_if_conds cs : forallb (deep g) cs = true -> Phi (if_conds w cs).
@@ -297,7 +300,7 @@ Proof.
   - (* NRawText *) phi_bind; phi_leaf.
   - (* NPrint *)
     phi_bind; [apply Hw; assumption|].
-    assert (Hrest : Phi (ds <-- print_dirs cf w dirs ;;;
+    assert (Hrest : Phi (ds <-- print_dirs cf w dirs x ;;;
                          s <-- lift (value_string x) ;;;
                          st <-- get ;;;
                          ws <-- lift (print_writes (mode st) ds s) ;;;
